@@ -360,7 +360,11 @@ func HarnessAXValue() {
 		verifrt.Cover("C06: end stop")
 	}
 	if isDead {
-		verifrt.Cover("C06: inside the deadzone")
+		// an unsigned axis split at mid-travel has no position exactly at the centre when its maximum is odd and
+		// the deadzone is 0: no vacuity guard there
+		if !(a.kind == axCCBi && a.min == 0 && a.p == 0 && a.max%2 == 1) {
+			verifrt.Cover("C06: inside the deadzone")
+		}
 	}
 }
 
